@@ -377,7 +377,6 @@ func TestC14(t *testing.T) { c14Prop().Run(t) }
 
 func FuzzC14(f *testing.F) { FuzzProp(f, c14Prop()) }
 
-
 // sameTokens reports whether two lists of field lines name the same set of
 // non-empty tokens (OWS trimmed); how they are spread over lines is not pinned.
 func sameTokens(a, b []string) bool {
